@@ -289,6 +289,10 @@ func (e *FnEnc) escapeTerm(sv SV) {
 			e.escapedSeen[r] = true
 			e.escapedRefs = append(e.escapedRefs, r)
 		}
+		if e.escapedAt == nil {
+			e.escapedAt = map[string][]*ssa.BasicBlock{}
+		}
+		e.escapedAt[r] = append(e.escapedAt[r], e.escapeBlock)
 	}
 }
 
